@@ -396,6 +396,13 @@ def children_once(ctx, gx):
             src = ast.unparse(ast.Module(body=n.body, type_ignores=[]))
             if '<node name=' in src:
                 node_lists.append(n.iter.id)
+        # ... or written as a comprehension / generator over the list
+        if isinstance(n, (ast.GeneratorExp, ast.ListComp)) and \
+                len(n.generators) == 1 and \
+                isinstance(n.generators[0].iter, ast.Name) and \
+                not n.generators[0].ifs and \
+                '<node name=' in ast.unparse(n.elt):
+            node_lists.append(n.generators[0].iter.id)
     if not node_lists:
         ctx.ob('C16.D4', gx.qualname, 'children-listed-once', False,
                'could not find the loop that writes the <node name=.../> '
